@@ -107,9 +107,24 @@ def main():
      "not_applicable": [],
      "notes": "All checks are `./vc <id> <tier>`: it rebuilds the harness variants (os, memfd, inproc, asan) against /repo's current working tree and runs the exploration. Exit 0 held / 1 VIOLATION / 2 machinery error (never a verdict)."
     }
+    INPROC_TOO = {
+      "C02": " The thread part (schedules of senders against each receiver behaviour) also runs on the in-process build.",
+      "C03": " Model graph (without move-to-process operations) and races also run on the in-process build.",
+      "C04": " All cases except chains through a forked process also run on the in-process build.",
+      "C06": " Schedules and scripted histories also run on the in-process build.",
+      "C08": " Server/client schedules, many-servers and dropped-unused cases also run on the in-process build (registry rendezvous).",
+      "C09": " Streams (without the forked holder and the crashing carrier) and races also run on the in-process build.",
+    }
+    INPROC_NOTE = (" On the in-process build there are no system calls to schedule at: scheduling points are futex waits, thread start/join, "
+                   "the yields of spin-then-park back-offs (a yielding task may also keep the processor until it blocks: one deviation) and explicit harness points before each library operation.")
     for p in props:
         if p in CHECKS:
             cat, text, note, tech, ref = CHECKS[p]
+            if p in INPROC_TOO:
+                text = text + INPROC_TOO[p]
+                note = note + INPROC_NOTE
+            if p == "C10":
+                note = note + INPROC_NOTE
             m["checks"].append({
               "property_id": p, "quick_cmd": "./vc %s quick" % p, "thorough_cmd": "./vc %s thorough" % p,
               "evidence_file": "evidence/%s.json" % p, "replay_cmd_template": "./vc replay {path}", "engine": "vcheck",
